@@ -958,9 +958,10 @@ def _walk_cmp(src, cp, mapping, case, path, fails, mask, top=True):
             blank = [x if k else None for x, k in zip(av, mask)]
             nd = {"IntegerData": -2147483648, "ReferencedData": 0, "BooleanData": 0}.get(src["cls"])
             blank2 = [x if k else nd for x, k in zip(av, mask)]
+            blank3 = [x if k else -2147483648 for x, k in zip(av, mask)]
             if "getter-raised" in json.dumps(bv):
                 fails.append({"key": "empty-values-unreadable", "what": f"values of the masked data copy cannot be read ({bv})"})
-            elif _norm(bv) not in (_norm(comp), _norm(blank), _norm(blank2)):
+            elif _norm(bv) not in (_norm(comp), _norm(blank), _norm(blank2), _norm(blank3)):
                 fails.append({"key": "masked-values", "what": f"masked data copy holds {bv}, source {av}, mask {mask}"})
         return
     masked = mask is not None and _kind_of(src["cls"]) == "KObject" and GEO.get(src["cls"]) in ("GPoints", "GCells", "GCurve", "GGrid")
